@@ -52,9 +52,25 @@ type provider struct {
 	mu    sync.Mutex
 	asked map[string]bool // every event ID ever asked for
 	calls int
+	// priming: every ID fails the first time it is asked for (an earlier operation on the same provider object
+	// saw errors); the library must carry nothing over from that operation to the next
+	priming bool
+	primed  map[string]bool
+	// generous: with an event the provider also hands back the auth events of that event that it is scripted to
+	// return (more events than asked for, the asked one among them)
+	generous bool
 }
 
-func newProvider(w *world) *provider { return &provider{w: w, asked: map[string]bool{}} }
+func newProvider(w *world) *provider {
+	return &provider{w: w, asked: map[string]bool{}, primed: map[string]bool{}}
+}
+
+// endPriming: the operation whose outcome is compared starts now.
+func (p *provider) endPriming() {
+	p.priming = false
+	p.asked = map[string]bool{}
+	p.calls = 0
+}
 
 // ProvideEvents implements gomatrixserverlib.EventProvider: an error if one of the IDs is scripted to fail,
 // otherwise the events scripted to be returned (always the event that was asked for).
@@ -70,9 +86,21 @@ func (p *provider) ProvideEvents(roomVer gmsl.RoomVersion, eventIDs []string) ([
 		if !ok {
 			continue // nobody has this event (another room's create event)
 		}
+		if p.priming && !p.primed[id] {
+			p.primed[id] = true
+			failed = true
+			continue
+		}
 		switch p.w.r.ev(i).P {
 		case "returns":
 			out = append(out, p.w.pdu[i])
+			if p.generous {
+				for _, a := range p.w.r.ev(i).Auth {
+					if p.w.r.ev(a).P == "returns" {
+						out = append(out, p.w.pdu[a])
+					}
+				}
+			}
 		case "errors":
 			failed = true
 		}
@@ -152,4 +180,34 @@ func (b *backfillRequester) Backfill(ctx context.Context, origin, server spec.Se
 
 func (b *backfillRequester) ProvideEvents(roomVer gmsl.RoomVersion, eventIDs []string) ([]gmsl.PDU, error) {
 	return b.prov.ProvideEvents(roomVer, eventIDs)
+}
+
+// ---------------------------------------------------------------- the federation-backed state provider
+
+type stateIDResponse struct{ state, auth []string }
+
+func (r *stateIDResponse) GetStateEventIDs() []string { return r.state }
+func (r *stateIDResponse) GetAuthEventIDs() []string  { return r.auth }
+
+// fedStateClient implements gomatrixserverlib.FederatedStateClient: the remote server answers /state_ids and
+// /state with the state of the record (as bytes: the events go through the untrusted parser).
+type fedStateClient struct {
+	w       *world
+	stateOf func(eventID string) []int
+}
+
+func (c *fedStateClient) LookupStateIDs(ctx context.Context, origin, s spec.ServerName, roomID, eventID string) (gmsl.StateIDResponse, error) {
+	r := &stateIDResponse{}
+	for _, i := range c.stateOf(eventID) {
+		r.state = append(r.state, c.w.ids[i])
+	}
+	return r, nil
+}
+
+func (c *fedStateClient) LookupState(ctx context.Context, origin, s spec.ServerName, roomID, eventID string, roomVersion gmsl.RoomVersion) (gmsl.StateResponse, error) {
+	r := &stateResponse{}
+	for _, i := range c.stateOf(eventID) {
+		r.state = append(r.state, append(spec.RawJSON{}, c.w.pdu[i].JSON()...))
+	}
+	return r, nil
 }
